@@ -109,7 +109,8 @@ fn data_for(field: &[u8], spec: &DataSpec) -> Vec<u8> {
             let ty = (field[0] >> 4) & 7;
             let len = if ty == TY_LIST { 0 } else { raw.wrapping_sub(n) & 0xffff_ffff };
             let len = (len as i64 + *delta as i64).max(0) as u64;
-            if len > 600 {
+            // data for fields that honestly announce up to ~2^16 bytes is supplied in one case out of four
+            if len > 600 && !(len <= 70_000 && *seed % 4 == 0) {
                 return vec![];
             }
             let mut d = Vec::with_capacity(len as usize);
